@@ -124,6 +124,37 @@ def c13(ctx):
     rm(out)
 
 
+# ------------------------------------------------------------------------------ C14 / C15 observe
+def _observe(ctx, props):
+    dev, rel = ctx.build("dev"), ctx.build("release")
+    out = ctx.path("observe.nd")
+    depth, limits = (7, "012") if ctx.thorough else (6, "01")
+    ctx.model_check("MC_Observe", env={"DEPTH": depth, "LIMITS": limits, "OUT": out}, workers=8, timeout=1500)
+    for b in (dev, rel):
+        ctx.replay(b, "observe", out, props, label="observe-" + os.path.basename(b))
+    rm(out)
+    for b in (dev, rel):
+        tr, _ = ctx.record(b, "observe", name="observe-" + os.path.basename(b))
+        ctx.validate("Trace_Observe", tr, props, label="observe-" + os.path.basename(b))
+        rm(tr)
+
+
+def c14(ctx):
+    _observe(ctx, {"C14"})
+
+
+def c15(ctx):
+    _observe(ctx, {"C15"})
+
+
+OBSERVE_RULE = ("TLC explores every history of register / deregister / notification round / acknowledge / set-limit calls up to "
+                "the depth bound over 2 endpoints x 2 tokens x 2 paths x 2 ids x {CON, NON} x limits, checks the C14/C15 step "
+                "properties on every transition and emits every evaluated transition; each is replayed on a real Subject and "
+                "the full state (observer order, tokens, unacknowledged counts, pending ids via the cfg(coap_lite_verif) accessors) "
+                "compared. Seeded random histories of length 200 over larger alphabets, directed long histories at limits 10/254/255 "
+                "and the notification builder are recorded and validated step by step by Trace_Observe. A case is one emitted "
+                "transition (distinct history) or one recorded episode.")
+
 TABLE_RULE = ("TLC evaluates the specification operator over the whole finite domain (one state per table key), checks the "
               "round-trip / well-formedness theorems in every state and emits the complete expected table; every row is "
               "compared with the real code in dev and release builds. A case is one table row; rows are distinct by key.")
@@ -142,4 +173,6 @@ CHECKS = {
     "C05": (c05, {"rule": TABLE_RULE}),
     "C06": (c06, {"rule": TABLE_RULE + " Typed getters/setters on a message are additionally recorded after random typed builder calls and validated by Trace_Wire element by element."}),
     "C13": (c13, {"rule": TABLE_RULE}),
+    "C14": (c14, {"rule": OBSERVE_RULE}),
+    "C15": (c15, {"rule": OBSERVE_RULE}),
 }
